@@ -38,11 +38,12 @@ own("C16", "RaceReport Adopt")
 own("C12", "FNew FOne FSet FAdd FSub FMul FSqr FNeg FInvert FSqrtRatio FCMove FFromBytes FWide FBytes FSgn0 FIsZero FEquals FSetInt FReset")
 own("C11", "MSswu MIso")
 own("C09", "NWide")
+own("C19", "Sched")
 # in the concurrency check every disagreement is a call that did not return its sequential result
 CONCURRENT_PROPS = {"C16"}
 
 # trace-validated properties: harness generator name == property id
-TRACE_PROPS = {"C01", "C02", "C03", "C04", "C05", "C06", "C07", "C08", "C09", "C10", "C11", "C12", "C13", "C14", "C15", "C16", "C18"}
+TRACE_PROPS = {"C19", "C01", "C02", "C03", "C04", "C05", "C06", "C07", "C08", "C09", "C10", "C11", "C12", "C13", "C14", "C15", "C16", "C18"}
 # A check is a list of passes: (generator name, harness file groups, trace module, cfg, scale, optional?, only these reasons count)
 SECP = ("TraceSecp.tla", "TraceSecp.cfg")
 FIELD = ("TraceField.tla", "TraceField.cfg")
@@ -50,11 +51,12 @@ PASSES = {
     "C09": [("C09", ("main",), SECP, 1.0, False, None), ("C09w", ("main", "field"), FIELD, 1.0, True, None)],
     "C11": [("C11", ("main", "field"), FIELD, 1.0, False, None)],
     "C12": [("C12", ("main", "field"), FIELD, 1.0, False, None)],
+    "C19": [("C19", ("main", "sched"), ("TraceSched.tla", "TraceSched.cfg"), 1.0, False, None)],
     "C15": [("C15", ("main",), ("TraceMem.tla", "TraceMem.cfg"), 1.0, False, None),
             ("C10", ("main",), SECP, 0.15, False, {"frame", "invalid-frame"})],   # element / scalar arguments keep their value
 }
 # properties whose histories can be re-executed call by call from a replay file
-SCENARIO_PROPS = TRACE_PROPS - {"C15", "C16", "C11", "C12"}
+SCENARIO_PROPS = TRACE_PROPS - {"C15", "C16", "C11", "C12", "C19"}
 
 # toy-scale model-checking configurations per property: (module, cfg, quick?, extra args)
 MC = {}
@@ -81,11 +83,38 @@ def harness_overlay(work, accessor, groups=("main",)):
     return p
 
 
+def instrument_overlay(work):
+    """C19: instrumented copies of the two internal packages (every function reports its entry), made
+    from the CURRENT working tree by harness/instr; returned as overlay entries.  /repo is not touched."""
+    rep, names = {}, {}
+    first = 1000
+    for pkg in ("field", "scalar"):
+        out = os.path.join(work, "instr", pkg)
+        os.makedirs(out, exist_ok=True)
+        r = subprocess.run(["go", "run", os.path.join(VERIF, "harness", "instr", "main.go"), os.path.join(REPO, "internal", pkg), out, str(first)],
+                           cwd=work, env=GOENV, capture_output=True, text=True)
+        if r.returncode != 0:
+            raise Inconclusive("instrumenter failed on internal/%s: %s" % (pkg, r.stderr[-2000:]))
+        for ln in r.stdout.splitlines():
+            i, n = ln.split(" ", 1)
+            names[int(i)] = n
+        first += 1000
+        for f in glob.glob(os.path.join(out, "*.go")):
+            rep[os.path.join(REPO, "internal", pkg, os.path.basename(f))] = f
+    json.dump(names, open(os.path.join(work, "instr", "names.json"), "w"))
+    return rep
+
+
 def build_harness(work, race=False, groups=("main",)):
     """Compile the harness inside /repo's module from the current working tree.  Returns (binary, accessor?)."""
     last = ""
+    extra = instrument_overlay(work) if "sched" in groups else {}
     for accessor in (True, False):
         ov = harness_overlay(work, accessor, groups)
+        if extra:
+            d = json.load(open(ov))
+            d["Replace"].update(extra)
+            json.dump(d, open(ov, "w"))
         out = os.path.join(work, "harness_bin_" + "_".join(groups) + ("_race" if race else ""))
         cmd = ["go", "build", "-tags", "verif", "-overlay", ov, "-o", out]
         if race:
